@@ -210,4 +210,43 @@ Definition case_lines (u : string * ty) : list string :=
     (paths n v))
   (combine (seqn (List.length (variants n))) (variants n)).
 
-Definition cases (tier : Z) (seed : Z) : list string := flat_map case_lines (emit_units tier).
+(* ---------- hostile keys: a nil pointer key, a NaN key (single-field structs with a map field) ---------- *)
+Definition hostile_values (n : node) : list (string * list string * val) :=
+  match n_typ n, n_chld n with
+  | typeStruct, [ch] =>
+    match n_typ ch, n_mapk ch, n_mapv ch with
+    | typeMap, Some kn, Some vn =>
+      let vs := variants vn in
+      let e1 := nth_mod (VInt 0) vs 1 in let e2 := nth_mod (VInt 0) vs 2 in
+      let wrap (m : val) : val := VStruct [if n_ptr ch then VPtr (Some m) else m] in
+      (if n_ptr kn then [("nilkey", [n_name ch], wrap (VMap false [(VPtr None, e1)]))] else []) ++
+      (match node_skind kn with
+       | Some SF64 | Some SF32 =>
+         let k (f : val) : val := if n_ptr kn then VPtr (Some f) else f in
+         [("nankey", [n_name ch], wrap (VMap false [(k (VFloat Floats.SpecFloat.S754_nan), e1); (k (fl 3 (-1)), e2)]))]
+       | _ => []
+       end)
+    | _, _, _ => []
+    end
+  | _, _ => []
+  end.
+
+Definition hostile_lines (u : string * ty) : list string :=
+  let n := root_node u in
+  flat_map (fun h : string * list string * val =>
+    let '(tag, path, v) := h in
+    let d := loop_demand n v path in
+    map (fun wc : string * string =>
+      let '(w, c) := wc in
+      let sc := script_of w c in
+      let scfull := script_of w "" in
+      let model := pr_model d sc scfull n v path in
+      (fst u ++ "." ++ tag ++ ".loop." ++ w ++ "." ++ c ++ "." ++ path_text path ++ tab ++
+       "loop," ++ tag ++ "," ++ dtag d ++ "," ++ script_tag w c ++ "," ++ mtag model ++ tab ++
+       fst u ++ ";p;loop;" ++ canon_of d ++ ";" ++ w ++ ";" ++ c ++ ";" ++ path_text path ++ ";" ++ pr_val true v ++ tab ++
+       model ++ tab ++ pr_spec d sc scfull)%string)
+    [("1", ""); ("0", ""); ("1", "B")])
+  (hostile_values n).
+
+Definition cases (tier : Z) (seed : Z) : list string :=
+  flat_map case_lines (emit_units tier) ++ flat_map hostile_lines (emit_units tier).
